@@ -9,6 +9,7 @@ RUNS=${1:-1500}
 S=$(mktemp -d /tmp/dh-cov.XXXXXX); trap 'rm -rf "$S"' EXIT
 export CARGO_NET_OFFLINE=true CARGO_TARGET_DIR=$S/target RUSTFLAGS="-Cinstrument-coverage"
 cd /verif/harness || exit 2
+export LLVM_PROFILE_FILE=$S/build-%p.profraw   # build scripts run in the dependency's directory: keep their profiles out of /repo
 cargo +nightly build --release --offline >$S/build.log 2>&1 || { tail -20 $S/build.log; exit 2; }
 SYS=$(rustc +nightly --print sysroot); BIN=$(dirname "$(find "$SYS" -name llvm-profdata | head -1)")
 mkdir -p $S/prof; i=0
